@@ -53,7 +53,7 @@ func (h *Header) MarshalBinary() (data []byte, err error) {
 }
 
 func (h *Header) UnmarshalBinary(data []byte) error {
-	if len(data) < 4 {
+	if len(data) < 8 {
 		return errors.New("The []byte is too short to unmarshel a full HelloElemHeader.")
 	}
 	h.Version = data[0]
